@@ -49,20 +49,27 @@ C.STRUCT_ATTR[("ProdV", "terms")] = lambda ip, p: (Struct("TermOfProd", prod=p),
 class SimplifyTermUnitary(Contract):
     key = KEY
     props = ["C20"]
+    # (exponents of the unitary objects, exponents of the remainder objects, rank)
     SHAPES = []
     for nu in (1, 2):
         for exps in itertools.product((1, 2), repeat=nu):
-            for nx in (0, 1):
-                SHAPES.append((exps, nx, 2))
-    SHAPES.append(((1, 1, 1), 0, 2))
-    SHAPES.append(((1, 1, 1), 1, 2))
-    SHAPES.append(((1, 1), 0, 3))        # unitary tensor of rank 3: refused
+            for xexps in ((), (1,)):
+                SHAPES.append((exps, xexps, 2))
+    SHAPES.append(((1, 1, 1), (), 2))
+    SHAPES.append(((1, 1, 1), (1,), 2))
+    # remainder objects in the denominator / with higher powers (an index on a
+    # denominator object is an occurrence of the index as well)
+    SHAPES.append(((1, 1), (-1,), 2))
+    SHAPES.append(((1, 1), (1, -1), 2))
+    SHAPES.append(((1, 1), (2, -2), 2))
+    SHAPES.append(((1, 1), (0 + 3,), 2))
+    SHAPES.append(((1, 1), (), 3))        # unitary tensor of rank 3: refused
     split_first_choice = len(SHAPES)
 
     def setup(self, vc):
-        exps, nx, rank = self.SHAPES[vc.choose(len(self.SHAPES), "shape")]
+        exps, xexps, rank = self.SHAPES[vc.choose(len(self.SHAPES), "shape")]
         objs = [T.new_obj(vc, "U", rank, e, pos=n) for n, e in enumerate(exps)]
-        objs += [T.new_obj(vc, "X", 2, 1, pos=len(exps) + n) for n in range(nx)]
+        objs += [T.new_obj(vc, "X", 2, e, pos=len(exps) + n) for n, e in enumerate(xexps)]
         t = T.new_term(vc, objs)
         return {"term": t, "_rank": rank, "_nunitary": sum(exps)}
 
